@@ -201,7 +201,9 @@ std::string oracle(const Scenario& s, const Outcome& o, std::string& detail)
       while (b < o.out.size()) {
          size_t e = o.out.find('\n', b); if (e == std::string::npos) e = o.out.size();
          const std::string l = o.out.substr(b, e - b);
-         if (l.compare(0, 8, "Warning:") == 0 || l.compare(0, 6, "Error: ") == 0 || l.compare(0, 6, "Error:") == 0) {
+         // ("Problem: ..." lines are part of the detailed report by design -- Detailed_writer puts the
+         //  problem text into its summary -- so they count as diagnostics only outside that format)
+         if (l.compare(0, 8, "Warning:") == 0 || l.compare(0, 6, "Error:") == 0 || (l.compare(0, 8, "Problem:") == 0 && o.out.compare(0, 4, "====") != 0)) {
             if (!have_in) {
                size_t ib = 0;
                while (ib < s.doc.size()) { size_t ie = s.doc.find('\n', ib); if (ie == std::string::npos) ie = s.doc.size(); in_lines.push_back(norm_tokens(s.doc.substr(ib, ie - ib))); ib = ie + 1; }
@@ -211,6 +213,24 @@ std::string oracle(const Scenario& s, const Outcome& o, std::string& detail)
             if (std::find(in_lines.begin(), in_lines.end(), n) == in_lines.end()) { detail = "diagnostic on stdout: '" + l.substr(0, 120) + "'"; return "diagnostic_on_stdout"; }
          }
          b = e + 1;
+      }
+      // a successful run always prints something (the requested output, the usage text or the version)
+      if (o.status == 0 && o.out.empty()) { detail = "exit status 0 without any output"; return "empty_success"; }
+      // for an SLHA-type output format and a document consisting of a shipped file plus well-formed
+      // additions, stdout is an SLHA document: every line is empty, a comment, a block definition or an
+      // indented data line -- anything else is not "the requested physics output"
+      if (s.clean_doc && s.cfg_known_format >= 2 && s.post_args.empty() && s.pre_args.empty() && !o.in_failed && s.src != SRC_NONE) {
+         size_t b3 = 0;
+         while (b3 < o.out.size()) {
+            size_t e = o.out.find('\n', b3); if (e == std::string::npos) e = o.out.size();
+            const std::string l = o.out.substr(b3, e - b3);
+            b3 = e + 1;
+            if (l.empty() || l[0] == ' ' || l[0] == '\t' || l[0] == '#' || l[0] == '\r') continue;
+            const auto t = sim::split(l);
+            if (t.size() >= 2 && (ieq(t[0], "block") || ieq(t[0], "decay"))) continue;
+            detail = "SLHA output contains a line that is neither comment, block definition nor data line: '" + l.substr(0, 100) + "'";
+            return "stray_line_on_stdout";
+         }
       }
       // known output format (last op wrote a complete, undamaged configuration block), successful run
       if (o.status == 0 && s.cfg_known_format >= 0 && s.post_args.empty() && s.pre_args.empty() && !o.in_failed) {
